@@ -230,7 +230,7 @@ class _EntityBase(EntityProtocol):
     def update(self):
         """Update the entity from current data in mdib."""
         orig = self._mdib.descriptions.handle.get_one(self.handle)
-        self.descriptor.update_from_other_container(orig)
+        self.descriptor.update_from_other_container(copy.deepcopy(orig))  # the entity shares nothing with the mdib
 
 
 class Entity(_EntityBase):
@@ -248,8 +248,8 @@ class Entity(_EntityBase):
     def update(self):
         """Update the entity from current data in mdib."""
         super().update()
-        orig = self._mdib.states.get_one(self.handle)
-        self.state.update_from_other_container(orig)
+        orig = self._mdib.states.descriptor_handle.get_one(self.handle)
+        self.state.update_from_other_container(copy.deepcopy(orig))
 
 
 class MultiStateEntity(_EntityBase):
@@ -279,7 +279,7 @@ class MultiStateEntity(_EntityBase):
         for state in list(self.states.values()):
             orig = states_dict.get(state.Handle)
             if orig is not None:
-                state.update_from_other_container(orig)
+                state.update_from_other_container(copy.deepcopy(orig))
             else:
                 self.states.pop(state.Handle)
         # add new states
